@@ -284,7 +284,9 @@ def gen (tier : Tier) (seed : Nat) (o : Out) : IO Unit := do
             if (descendT (buildTable p) 400 "M" (.mk [] (.named (aliasName 0)) false)).isSome &&
                (List.range n).all (fun i => (descendT (buildTable p) 400 "M" (.mk [] (.named (aliasName i)) false)).isSome) then
               o.line (tab ["K", "C05", "alias-anon-loop", "|".intercalate ((textOf p).map hexOfString), "anonLoop holds but every descent ends"])
-            anonLoops := anonLoops ++ [compileCase "alias-anon-loop" "c05:alias" "-" (textOf p) "rejected=1"]
+            -- repaired in /repo (D-05c): the cycle gate reports E019 for every alias from which a looping anonymous type is reachable
+            anonLoops := anonLoops ++ [compileCase "alias-anon-loop" "c05:alias" "-" (textOf p)
+              ("E019=" ++ listS (sortStrings (anonLoopAliases p)) ++ ";E033=0;rejected=1")]
           else
             o.line (compileCase ("alias-anon-" ++ toString n) "c05:alias" "-" (textOf p) (aliasS p))
   -- inheritance graphs: every graph on ≤ 3 (thorough 4) interfaces; acyclic ones are accepted with the model's base lists
@@ -307,7 +309,8 @@ def gen (tier : Tier) (seed : Nat) (o : Out) : IO Unit := do
     let i32 : TRef := .mk [] (.prim .int32) false
     for defs in [[Def.alias [] [] "A0" (.mk [] (.seq a0) false)],
                  [Def.alias [] [] "A0" (.mk [] (.dict i32 a0) false), Def.struct [] [] false "U" [mkField "x" a0]]] do
-      anonLoops := anonLoops ++ [compileCase "alias-anon-loop" "c05:alias" "-" (textOf [fileOf defs]) "rejected=1"]
+      anonLoops := anonLoops ++ [compileCase "alias-anon-loop" "c05:alias" "-" (textOf [fileOf defs])
+        ("E019=" ++ listS (sortStrings (anonLoopAliases [fileOf defs])) ++ ";E033=0;rejected=1")]
   for l in anonLoops do o.line l
   for l in inheritLoops do o.line l
 
